@@ -248,6 +248,7 @@ def env_program(s, kind, shadow, nm=None, deny=False):
         if n == 'x:macros':
             from .common import DECOY_MACROS
             sh += DECOY_MACROS
+
         elif n in ENV_METHODS:
             sh += '    %s\n' % ENV_METHODS[n]
         elif n in ENV_MODS:
@@ -350,8 +351,8 @@ def check(v, tier):
                 nm_ = dict(NEUTRAL)
                 nm_.update(names)
                 cases.append(Case('C19|env|x:deny-naming-lints:%s|%s|%s' % (lk, kind, s), env_program(s, kind, [], nm=nm_, deny=True), {'env': 'deny(naming lints) around an item that allows them for itself', 'names': names, 'set': s}, expect='accept', run=True, depth=2))
-            # macro namespace: 26 std macros shadowed by `macro_rules!` definitions in the textual scope of the derive (not `stringify!` / `unreachable!`, which the templates call unqualified)
-            cases.append(Case('C19|env|x:macros|%s|%s' % (kind, s), env_program(s, kind, ['x:macros']), {'env': 'macro_rules! decoys of 26 std macros', 'set': s}, expect='accept', run=True, depth=1))
+            # macro namespace: 28 std macros shadowed by `macro_rules!` definitions in the textual scope of the derive (`stringify!` and `unreachable!`, which the templates use, included)
+            cases.append(Case('C19|env|x:macros|%s|%s' % (kind, s), env_program(s, kind, ['x:macros']), {'env': 'macro_rules! decoys of 28 std macros', 'set': s}, expect='accept', run=True, depth=1))
     from .common import run_behavioural
     run_behavioural(v, cases, 'C19', nontrivial_min=1, min_nontrivial_ratio=0.5, shard_size=300)
     # #![no_std]: every trait set on every shape in one crate that does not link std
